@@ -152,6 +152,23 @@ impl Bloom {
         }
     }
 
+    /// (words, size mask, size exponent, locations per hash, shift)
+    #[cfg(transparencies_stretto_verif)]
+    pub(crate) fn verif_params(&self) -> (usize, u64, u64, u64, u64) {
+        (
+            self.bitset.len(),
+            self.size,
+            self.size_exp,
+            self.set_locs,
+            self.shift,
+        )
+    }
+
+    #[cfg(transparencies_stretto_verif)]
+    pub(crate) fn verif_words(&self) -> &[u64] {
+        &self.bitset
+    }
+
     /// `total_size` returns the total size of the bloom filter.
     #[allow(dead_code)]
     #[inline]
